@@ -7,12 +7,15 @@ import time
 from lib import common
 from llsym import codec
 from checks import codec_common as cc
+from checks import py_common
 
 _TYPES = []
 _TIER = ["quick"]
 
 
 def _work(a):
+    if a[0] == "py":
+        return py_common.work((a[1], a[2], _TIER[0], a[3]))
     ti, on = a
     t = _TYPES[ti]
     out = []
@@ -42,9 +45,14 @@ def main(tier: str) -> int:
         types, feats = cc.prepare(tier, d, optnames)
         _TYPES[:] = types
         tasks = [(i, on) for on in optnames for i in range(len(types))]
+        py_common.generate(d, d / "dsdl" / "vt")
+        py_common.TYPES[:] = types
+        tasks += [("py", "des", i, L) for i in range(len(types)) for L in cc.des_lengths(types[i], tier)]
         for res in common.pmap(_work, tasks):
             for ti, on, what, lg, tu, wall in res:
-                cc.record(rep, types[ti], on, what, lg, tu, wall)
+                cc.record(rep, types[ti], on, what, lg, tu, wall, replayer=py_common.replayer(types[ti]) if on == "py" else None)
+        optnames = optnames + ["py"]
+        py_common.cosim(rep, types)
         rep.functions = ["<T>_deserialize_ of every corpus type with everything it calls (nunavutGetU8..64, nunavutGetI8..64, nunavutGetF16/32/64, "
                          "nunavutGetBit, nunavutGetBits, nunavutCopyBits, nunavutFloat16Unpack, nested <T>_deserialize_)"]
         rep.bounds = dict(types=len(types), option_sets=optnames,
@@ -55,7 +63,11 @@ def main(tier: str) -> int:
                        "float16 decode: exact half->single conversion, any NaN for NaN",
                        "delimiter headers, length prefixes and union tags are symbolic; the executor splits on their feasible values (bounded by L / capacity)"]
     rep.not_covered = ["C++: types with bit arrays (std::bitset / std::vector<bool>); C++17 std::variant and pmr/cetl flavours only in the thorough tier",
-                       "Python target (E4 executor not landed)", "types not in the corpus"]
+                       "Python: the consumed-size clause (the Python API does not report it); NaN payloads; numpy >= 2 scalar-promotion errors",
+                       "types not in the corpus"]
+    rep.functions.append("Python target: <T>._deserialize_ of every corpus type and the generated nunavut_support.Deserializer / ZeroExtendingBuffer "
+                         "(fetch_aligned_*/fetch_unaligned_*, fork_bytes, get_byte, get_unsigned_slice, _unsigned_from_bytes) executed by pysym")
+    rep.assumptions += py_common.ASSUMPTIONS
     rep.extra["explanation"] = ("llsym symbolic execution of each generated deserializer on an arbitrary L-byte buffer; per path and per wire shape one z3 "
                                 "query: NOT(rc / consumed size / every meaningful decoded field match the reference decode of the zero-extended buffer) "
                                 "must be unsat; invalid representations must yield exactly the specified error")
